@@ -34,7 +34,7 @@ m = {
     "setup_cmd": "./setup.sh",
     "hooks": {
         "guard": "verifsim (scheduling points are generated into a scratch copy of /repo by bin/verif-inst at check time; nothing is committed to /repo)",
-        "enable": "bin/check copies /repo's working tree to /verif/.work/<id>-<tier>-<pid>/repo, runs bin/verif-inst on it (inserts verifsim.Yield/PreLock calls, adds package verifsim and limiter/zz_verif_access.go) and builds the harness against that copy with go1.26.8",
+        "enable": "bin/check copies /repo's working tree to /verif/.work/<id>-<tier>-<pid>/repo, runs bin/verif-inst on it (inserts verifsim.Yield/PreLock calls, wraps every multi-case select so that the order in which ready cases are tried is drawn by the simulator - bodies and operands unchanged -, adds package verifsim and limiter/zz_verif_access.go) and builds the harness against that copy with go1.26.8",
         "baseline_off_cmd": "cd /repo && GOFLAGS=-mod=mod go test -vet=off -count=1 -timeout 25m ./...",
         "source_commits": [],
         "add_only": True,
